@@ -244,8 +244,14 @@ class Ctx:
         self.t0 = time.time()
         self.thorough = tier == "thorough"
 
+    # the thorough tier is "as deep as we have built": the per-property base counts are scaled so that each thorough run takes a few minutes
+    THOROUGH_SCALE = {"C01": 4, "C02": 4, "C03": 3, "C04": 5, "C05": 3, "C06": 5, "C10": 2, "C11": 2, "C14": 4, "C15": 2, "C16": 3, "C17": 3, "C18": 3, "C19": 4}
+
     def n(self, quick, thorough):
-        return thorough if self.thorough else quick
+        if not self.thorough:
+            return quick
+        scale = self.scale if getattr(self, "scale", None) is not None else self.THOROUGH_SCALE.get(self.prop, 1)
+        return int(thorough * scale * float(os.environ.get("VERIF_THOROUGH_SCALE", "1")))
 
 
 def jsonable(x):
